@@ -116,14 +116,19 @@ def check(ctx):
     expect_fn(ctx, "C13.6", "format-flag", "description::type_description",
               "Ok(mut[Transformer::resolve(Transformer::new(description::ty_description,type_description::return_type_name,type_description::return_type_name_on_cache_hit,(),P1),P0)?;=formatting::format_type_description(<self>) if P2])",
               "result = resolve(id); the formatter is applied to it iff `format`", D)
+    # `the formatted description equals the unformatted one up to whitespace`: the formatter copies every character exactly once and
+    # adds whitespace only (the instances of C15 that carry this clause, evaluated here for C13)
+    from . import c15
+    with ctx.only(lambda k: k.endswith("/copy-once") or k in ("output/returned", "loop-shape", "loop-source", "loop-body-is-match", "default-arm")):
+        c15.check(ctx)
     # sealed cache
     tr = q.adt_by_name(P, "Transformer", D)
     priv = tr is not None and all(not f["pub"] for f in tr["variants"][0]["fields"] if f["name"] == "cache")
     ctx.expect(priv, "C13.7", "sealed-cache", tr["sp"] if tr else "", "Transformer.cache is private: callers cannot pre-seed or clear the recursion guard", "cache field is public")
     # termination + panics
-    g, table = DR.graph(ctx)
     entry = q.fn1(P, "description::type_description", D)
     if entry is not None:
+        g, table = DR.graph(ctx, entry["path"])
         reach = k10.reachable(g, [entry["path"]])
         mine = [b for b in table if b["in"] == entry["path"]]
         k13.check_sccs(ctx, "C13.5", g, reach, DR.LIBS, mine)
